@@ -182,6 +182,14 @@ def value_of(it, src, fr):
     paths = [p for p in allp if p.kind == "return"]
     if not paths:
         raise Unsupported(f"ghost definition {src!r} is undefined on this path")
+    if len(paths) == 1 and len(allp) == 1:
+        for f in paths[0].pc[nbase:]:
+            it.ctx.assume(f)
+        # the path condition is adopted, so the outcomes of pure modular calls made while evaluating are too
+        memo = it.ctx.ghost.setdefault("pure_calls", [])
+        for ent in paths[0].ctx.ghost.get("pure_calls", []):
+            memo.append(ent)
+        return paths[0].value
     if len(paths) == 1:
         for f in paths[0].pc[nbase:]:
             it.ctx.assume(f)
